@@ -21,7 +21,10 @@ for p in props:
         "engine": "pyvc",
         "level_claimed": {"category": m["category"], "text": m["explanation"], "design_ref": f"DESIGN.md section 5, {pid}"},
         "level_note": "; ".join(m.get("assumptions", [])) or "see evidence.trusted_base",
-        "technique": m.get("technique", "contract-based deductive verification: VCs generated from the real function ASTs against sidecar contracts, discharged by z3/cvc5"),
+        "technique": m.get("technique", "contract-based deductive verification: VCs generated from the real function ASTs against sidecar contracts, discharged by z3/cvc5"
+                           if m["category"] == "proof" else
+                           "contract-based deductive verification of the units named in level_claimed (pyvc: VCs from the real ASTs, z3/cvc5) decides those clauses; the rest of the "
+                           "property is decided only by a BOUNDED run-time check against the statement's oracle (harness/" + pid + ".py), never counted as proved"),
     })
 not_app = [{"property_id": p["id"], "reason": na.get(p["id"], "not built yet (see DESIGN.md section 1 for the planned verdict)")} for p in props if p["id"] not in PROPS]
 man = {
